@@ -179,7 +179,7 @@ CHECKS = {
     "C11": (
         "model_checking",
         "Search over run histories in one process: every sequence of <=2 "
-        "(thorough <=3) runs from an 18-run alphabet (successes and failures, "
+        "(thorough <=3) runs from a 19-run alphabet (successes and failures, "
         "titration, ligand, --clean, two user force fields, heavy-atom "
         "repair, refused gapped structure, tolerated parse error, multi-model "
         "PDB and mmCIF files, two real PROPKA runs, an exactly symmetric "
